@@ -129,7 +129,13 @@ where
             WaitingProjected::NoPool => Poll::Ready(WaitingPoll::Closed),
         };
 
-        if polled.is_ready() {
+        // Only forget the receiver once it has resolved. A waiter which is merely not ready
+        // yet (`NotReady`) must stay registered, so that a connection returned to the pool while
+        // this checkout is still connecting can pre-empt the in-progress connection attempt.
+        if matches!(
+            polled,
+            Poll::Ready(WaitingPoll::Connected(_)) | Poll::Ready(WaitingPoll::Closed)
+        ) {
             self.as_mut().set(Waiting::NoPool);
         };
 
